@@ -18,7 +18,8 @@ CONSTANTS ChunkIds,     \* subset of {"a","b","n","t","o","s","f","r"}
           MaxRows,      \* no file grows beyond this many rows
           KeepHist,     \* record the history (export runs)
           ExportAt,     \* 0: print every history;  k > 0: only histories of exactly k events
-          WithReads     \* include the explicit read actions (they change only `res`)
+          Acts          \* the action kinds enabled: subset of {"open","hwrite","hread","hclose","create","overwrite",
+                        \*   "append","appendbad","appendmissing","read","readhdr"}
 
 VARIABLES hist
 vars == <<files, handles, res, hist>>
@@ -39,32 +40,33 @@ ChunkOf(id) ==
       [] id = "r" -> [descr |-> <<"R", "lt">>, rows |-> <<81>>]
 NoChunk == [descr |-> NoDescr, rows |-> <<>>]
 
-Ev(o, h, p, m, dl, c, hd) == [op |-> o, h |-> h, p |-> p, mode |-> m, delim |-> dl, chunk |-> c, hdr |-> hd]
-Log(e) == hist' = IF KeepHist THEN Append(hist, e) ELSE hist
+\* `err` is the outcome the specification chose (the harness ignores it: it records the real one)
+Ev(o, h, p, m, dl, c, hd) == [op |-> o, h |-> h, p |-> p, mode |-> m, delim |-> dl, chunk |-> c, hdr |-> hd, err |-> "none"]
+Log(e) == hist' = IF KeepHist THEN Append(hist, [e EXCEPT !.err = res'.err]) ELSE hist
 
 Init == RSInit /\ hist = <<>>
 
 \* arguments that cannot matter are not enumerated (delimiter / header of a write that is not the first)
-MOpen == \E h \in Handles, p \in Paths, m \in Modes :
+MOpen == "open" \in Acts /\ \E h \in Handles, p \in Paths, m \in Modes :
             \E dl \in (IF m = "r+" /\ files[p].st = "ok" THEN {"none"} ELSE Delims) :
                Open(h, p, m, dl) /\ Log(Ev("open", h, p, m, dl, NoChunk, "none"))
-MHWrite == \E h \in Handles, id \in ChunkIds :
+MHWrite == "hwrite" \in Acts /\ \E h \in Handles, id \in ChunkIds :
             \E hd \in (IF handles[h].fresh THEN Hdrs ELSE {"none"}) :
                HWrite(h, ChunkOf(id), hd) /\ Log(Ev("hwrite", h, handles[h].path, "none", "none", ChunkOf(id), hd))
-MHRead  == WithReads /\ \E h \in Handles : HRead(h) /\ Log(Ev("hread", h, handles[h].path, "none", "none", NoChunk, "none"))
-MHClose == \E h \in Handles : HClose(h) /\ Log(Ev("hclose", h, handles[h].path, "none", "none", NoChunk, "none"))
-MCreate == \E p \in Paths, id \in ChunkIds, hd \in Hdrs, dl \in Delims :
+MHRead == "hread" \in Acts /\ \E h \in Handles : HRead(h) /\ Log(Ev("hread", h, handles[h].path, "none", "none", NoChunk, "none"))
+MHClose == "hclose" \in Acts /\ \E h \in Handles : HClose(h) /\ Log(Ev("hclose", h, handles[h].path, "none", "none", NoChunk, "none"))
+MCreate == "create" \in Acts /\ \E p \in Paths, id \in ChunkIds, hd \in Hdrs, dl \in Delims :
                Create(p, ChunkOf(id), hd, dl) /\ Log(Ev("write", 0, p, "none", dl, ChunkOf(id), hd))
-MOverwrite == \E p \in Paths, id \in ChunkIds, hd \in Hdrs, dl \in Delims :
+MOverwrite == "overwrite" \in Acts /\ \E p \in Paths, id \in ChunkIds, hd \in Hdrs, dl \in Delims :
                Overwrite(p, ChunkOf(id), hd, dl) /\ Log(Ev("write", 0, p, "none", dl, ChunkOf(id), hd))
-MAppendCompatible == \E p \in Paths, id \in ChunkIds :
+MAppendCompatible == "append" \in Acts /\ \E p \in Paths, id \in ChunkIds :
                AppendCompatible(p, ChunkOf(id), "none", "none") /\ Log(Ev("append", 0, p, "none", "none", ChunkOf(id), "none"))
-MAppendIncompatible == \E p \in Paths, id \in ChunkIds :
+MAppendIncompatible == "appendbad" \in Acts /\ \E p \in Paths, id \in ChunkIds :
                AppendIncompatible(p, ChunkOf(id), "none", "none") /\ Log(Ev("append", 0, p, "none", "none", ChunkOf(id), "none"))
-MAppendMissing == \E p \in Paths, id \in ChunkIds, hd \in Hdrs, dl \in Delims :
+MAppendMissing == "appendmissing" \in Acts /\ \E p \in Paths, id \in ChunkIds, hd \in Hdrs, dl \in Delims :
                AppendMissing(p, ChunkOf(id), hd, dl) /\ Log(Ev("append", 0, p, "none", dl, ChunkOf(id), hd))
-MReadBack   == WithReads /\ \E p \in Paths : ReadBack(p) /\ Log(Ev("read", 0, p, "none", "none", NoChunk, "none"))
-MReadHeader == WithReads /\ \E p \in Paths : ReadHeader(p) /\ Log(Ev("readhdr", 0, p, "none", "none", NoChunk, "none"))
+MReadBack == "read" \in Acts /\ \E p \in Paths : ReadBack(p) /\ Log(Ev("read", 0, p, "none", "none", NoChunk, "none"))
+MReadHeader == "readhdr" \in Acts /\ \E p \in Paths : ReadHeader(p) /\ Log(Ev("readhdr", 0, p, "none", "none", NoChunk, "none"))
 
 Next == \/ MOpen \/ MHWrite \/ MHRead \/ MHClose
         \/ MCreate \/ MOverwrite \/ MAppendCompatible \/ MAppendIncompatible \/ MAppendMissing
@@ -79,12 +81,19 @@ BoundedHist == /\ Len(hist) <= MaxDepth
                /\ \A p \in Paths : Len(files[p].rows) <= MaxRows
 
 \* ---- theorems checked by TLC ----------------------------------------------------------
-\* concatenation: the stored rows are the chunks of the recorded history, in order
-\* (meaningful with KeepHist: replays the history with plain sequence concatenation)
-RECURSIVE Concat(_, _, _)
-Concat(p, k, acc) ==            \* fold the first k events' effect on path p, knowing which were accepted is the
-    acc                         \* business of the actions; the invariant below compares sizes only
-TotalInv == \A p \in Paths : files[p].st = "ok" => files[p].size = Len(files[p].rows)
+\* "the file equals the concatenation of all writes", stated directly on the recorded history
+\* (needs KeepHist): the rows of p are the chunks of all accepted writes to p, in order, since the
+\* last event that replaced it (a non-append write or a truncating open).
+RECURSIVE Fold(_, _)
+Fold(p, k) ==
+    IF k = 0 THEN <<>>
+    ELSE LET e == hist[k]  prev == Fold(p, k - 1) IN
+         IF e.p # p \/ e.err # "none" THEN prev
+         ELSE CASE e.op = "write"                          -> e.chunk.rows
+                [] e.op = "open" /\ e.mode \in {"w", "w+"} -> <<>>
+                [] e.op \in {"hwrite", "append"}           -> prev \o e.chunk.rows
+                [] OTHER                                   -> prev
+ConcatInv == KeepHist => \A p \in Paths : files[p].rows = Fold(p, Len(hist)) /\ files[p].size = Len(Fold(p, Len(hist)))
 
 \* ---- export ------------------------------------------------------------------------------
 Export == (KeepHist /\ hist # <<>> /\ (ExportAt = 0 \/ Len(hist) = ExportAt)) => PrintT(<<"BEH", ToJson(hist)>>)
